@@ -276,6 +276,32 @@ func propC12(c *ctx) error {
 				res.violate(J{"src": src, "data": "slices / maps / funcs of the same type (prop_c12.go)"}, "error", out.V, "comparing two values of an uncomparable kind yields a value instead of failing the expression")
 			}
 		}
+		// an argument of the wrong kind for the callee's parameter fails the call — the function is not entered
+		{
+			called := 0
+			tf := func(f string, a ...any) string { called++; return "tf:" + f }
+			sf := func(s string) string { called++; return s }
+			inf := func(n int64, s string) string { called++; return s }
+			nat2 := map[string]any{"n": 42, "tf": tf, "sf": sf, "inf": inf, "fl": 1.5, "xs": []int{1}, "nilv": nil}
+			for _, src := range []string{"printf(n)", "printf(1, 2)", "printf(nilv, 1)", "printf(xs)", "tf(n, 'a')", "tf(fl)", "tf(true, 1)", "sf(n)", "sf(xs)", "inf('a', 'b')", "inf(1, 2)", "inf(fl, 'x')", "printf(n) + 'x'", "t2 ? tf(n) : 'x'"} {
+				nat2["t2"] = true
+				called = 0
+				out := implEval(src, []any{nat2}, nil)
+				res.eval("wrongarg|"+src, true, J{"src": src})
+				res.S3Checked++
+				res.count("wrong_kind_arguments")
+				if out.R == "ok" || called != 0 {
+					res.violate(J{"src": src, "data": "n=42, tf func(string, ...any) string, sf func(string) string, inf func(int64, string) string"}, "error, function not entered", J{"r": out.R, "v": out.V, "calls": called},
+						"an argument of the wrong kind for the callee's parameter does not fail the expression")
+				}
+			}
+			// controls
+			for _, src := range []string{"printf('%v', n)", "tf('a', n)", "sf('s')", "inf(1, 'b')"} {
+				if out := implEval(src, []any{nat2}, nil); out.R != "ok" {
+					res.SelfTest = append(res.SelfTest, "C12 control call failed: "+src+" "+out.Err)
+				}
+			}
+		}
 		// the model's value universe has slices and maps: the same through the correspondence
 		data := vMap(kv{"xs", vIntSlice(1, 2)}, kv{"ys", vIntSlice(1, 2)}, kv{"m", vMap(kv{"k", vInt(1)})}, kv{"m2", vMap(kv{"k", vInt(1)})})
 		for _, src := range []string{"xs == ys", "xs == xs", "xs != ys", "m == m", "m != m2"} {
